@@ -2100,3 +2100,115 @@ Proof.
       assert (Eu : upd (emax s) e (emax s e) e' = emax s e') by (unfold upd; destruct (Nat.eqb_spec e' e) as [->|]; reflexivity).
       rewrite Eu in F. exact F.
 Qed.
+
+Lemma inv_update_index : forall s v idx, InvA s -> ok_op s (OUpdateIndex v idx) -> InvA (fst (step_update_index s v idx)).
+Proof.
+  intros s v idx H Hop. cbn [ok_op] in Hop. unfold step_update_index.
+  destruct (vidx s v =? idx); [exact H|].
+  destruct (vpar s v) as [e|] eqn:Evp.
+  - destruct (verify_value_index s e idx) eqn:Ev; try exact H.
+    set (newmax := Z.max (Z.max 0 idx) (max_index s (lrem v (evals s e)))).
+    set (amt := esize_of (emin s e) newmax - esize s e).
+    assert (Hnm : 0 <= newmax) by (unfold newmax; lia).
+    assert (Hnew : 1 <= esize s e + amt).
+    { unfold amt. pose proof (esize_of_pos (emin s e) newmax Hnm). lia. }
+    assert (Hpost : exists p, fst (enum_modify_size s e amt) = set_rel s p
+              /\ (snd (enum_modify_size s e amt) = VOk -> ok_all s p (bump s (erefs s e) (esize s e + amt)))
+              /\ (snd (enum_modify_size s e amt) <> VOk -> ok_all s p (sz s))).
+    { destruct (Z.eq_dec amt 0) as [E0|NE0].
+      - rewrite E0. unfold enum_modify_size. cbn [Z.eqb fst snd]. exists (rel s). split; [apply set_rel_id|].
+        split; [|intros _; exact (a_ok s H)]. intros _. eapply ok_all_ext; [|exact (a_ok s H)].
+        intros y. replace (esize s e + 0) with (esize s e) by lia. apply bump_same. exact H.
+      - apply enum_modify_post; [exact H|exact Hnew|]. apply (Hop e eq_refl). fold newmax. unfold amt in NE0. lia. }
+    destruct (enum_modify_size s e amt) as [s1 r]. cbn [fst snd] in Hpost.
+    destruct Hpost as [p [-> [Pok Perr]]].
+    destruct r; cbn [fst].
+    + specialize (Pok eq_refl).
+      replace (esize s e + amt) with (esize_of (emin s e) newmax) in Pok by (unfold amt; lia).
+      assert (Hemn : forall e', emin s e' = upd (emin s) e (emin s e) e').
+      { intros e'. unfold upd. destruct (Nat.eqb_spec e' e) as [E|]; [rewrite E|]; reflexivity. }
+      eapply (InvA_enum_update s _ e newmax (emin s e) H Hnm); try reflexivity; try exact Hemn; try exact Pok.
+      intros e' v' Hv'. cbn in Hv'. cbn.
+      destruct (a_vals s H e' v' Hv') as (A & B & C). split; [exact A|split; [|exact C]].
+      unfold upd. destruct (Nat.eqb_spec v' v) as [->|NEv].
+      * assert (e' = e) by congruence. subst e'. rewrite Nat.eqb_refl. unfold newmax. lia.
+      * destruct (Nat.eqb_spec e' e) as [->|NEe]; [|exact B].
+        assert (Hin : In v' (lrem v (evals s e))) by (apply lrem_In; split; assumption).
+        pose proof (proj2 (max_index_ge s (lrem v (evals s e)) 0) v' Hin). unfold newmax, max_index. lia.
+    + apply InvA_set_rel; [exact H|apply Perr; discriminate].
+    + apply InvA_set_rel; [exact H|apply Perr; discriminate].
+  - (* a detached value *)
+    cbn [fst]. eapply (InvA_resized s _ (sz s) H); try reflexivity.
+    + exact (a_ok s H).
+    + apply (a_size s H).
+    + apply (a_emax s H).
+    + apply (a_refs s H).
+    + apply (a_refs2 s H).
+    + apply (a_refs_nd s H).
+    + intros e' v' Hv'. cbn in Hv'. cbn. destruct (a_vals s H e' v' Hv') as (A & B & C).
+      rewrite upd_other; [repeat split; assumption|]. intros ->. congruence.
+Qed.
+
+(* --- every operation ------------------------------------------------------------------------------ *)
+
+Theorem inv_step : forall s o, InvA s -> ok_op s o -> InvA (fst (step s o)).
+Proof.
+  intros s o H Hop. destruct o; cbn [step].
+  - apply inv_new_msg; exact H.
+  - apply inv_new_std; exact H.
+  - apply inv_new_enum; exact H.
+  - apply inv_new_enumsig; exact H.
+  - apply inv_new_mux; exact H.
+  - destruct (vmsg s m) eqn:Em; cbn [andb]; [|exact H]. destruct (vsig s x) eqn:Ex; [|exact H].
+    apply inv_append; assumption.
+  - destruct (vmsg s m) eqn:Em; cbn [andb]; [|exact H]. destruct (vsig s x) eqn:Ex; [|exact H].
+    apply inv_insert; assumption.
+  - destruct (vmsg s m); [apply inv_remove|]; exact H.
+  - destruct (vmsg s m); [apply inv_remove_all|]; exact H.
+  - destruct (vmsg s m); [apply inv_shift|]; exact H.
+  - destruct (vmsg s m); [apply inv_shift|]; exact H.
+  - destruct (vmsg s m); [apply inv_compact|]; exact H.
+  - destruct (vmsg s m); [apply inv_resize|]; exact H.
+  - destruct (vmsg s m); exact H.
+  - destruct (vsig s x); [apply inv_set_type; assumption|exact H].
+  - destruct (vsig s x) eqn:Ex; cbn [andb]; [|exact H]. destruct (venum s e); [apply inv_set_enum; assumption|exact H].
+  - destruct (venum s e); [apply inv_add_value; assumption|exact H].
+  - destruct (venum s e); [apply inv_remove_value|]; exact H.
+  - destruct (venum s e); [apply inv_remove_all_values|]; exact H.
+  - destruct (venum s e); [cbn [fst]; apply inv_set_min_size; assumption|exact H].
+  - destruct (vval s v); [apply inv_update_index; assumption|exact H].
+  - destruct (vmux s u) eqn:Eu; cbn [andb]; [|exact H]. destruct (vsig s x) eqn:Ex; [|exact H].
+    apply inv_mux_insert; assumption.
+  - destruct (vmux s u); [apply inv_mux_remove|]; exact H.
+  - destruct (vmux s u); [apply inv_mux_clear_group|]; exact H.
+  - destruct (vmux s u); [apply inv_mux_clear_all|]; exact H.
+  - destruct (vmux s u); [apply (inv_mux_shift true); assumption|exact H].
+  - destruct (vmux s u); [apply (inv_mux_shift false); assumption|exact H].
+Qed.
+
+Lemma inv_init : InvA init.
+Proof.
+  constructor; cbn; try (intros; reflexivity); try (intros; lia); try (intros; contradiction).
+  - intros [m|u g]; cbn; [exact I|]. unfold gget. cbn. destruct g; exact I.
+  - intros L L' x Hx. destruct L as [m|u g]; cbn in Hx; [contradiction|]. unfold gget in Hx. cbn in Hx. destruct g; contradiction.
+  - intros L x Hx. destruct L as [m|u g]; cbn in Hx; [contradiction|]. unfold gget in Hx. cbn in Hx. destruct g; contradiction.
+  - intros e. constructor.
+Qed.
+
+(* histories all of whose steps satisfy the per-step hypotheses *)
+Fixpoint ok_hist_from (s : state) (ops : list op) : Prop :=
+  match ops with
+  | [] => True
+  | o :: r => ok_op s o /\ ok_hist_from (fst (step s o)) r
+  end.
+Definition ok_hist (ops : list op) : Prop := ok_hist_from init ops.
+
+Lemma inv_run_from : forall ops s, InvA s -> ok_hist_from s ops ->
+  InvA (fold_left (fun s o => fst (step s o)) ops s).
+Proof.
+  induction ops as [|o r IH]; intros s H Hh; cbn [fold_left]; [exact H|].
+  destruct Hh as [Ho Hr]. apply IH; [apply inv_step; assumption|exact Hr].
+Qed.
+
+Theorem inv_reachable : forall ops, ok_hist ops -> InvA (run ops).
+Proof. intros ops Hh. unfold run. apply inv_run_from; [apply inv_init|exact Hh]. Qed.
